@@ -280,7 +280,7 @@ def c20_sig(v):
 
 # ------------------------------------------------------------------ engine-level properties
 ES_INV = ("TypeOK C01_Prefix C01_NothingLost C01_NoStuckBuffer C02_Order C03_OneClose C03_ClosedIsFinal C03_NoSpuriousError C04_Registry C04_NoUnderflow "
-          "C12_PollReleased C11_NoStuckPoll C12_BufferedFirst C08_AtMostOnce C08_FailureKeepsSession C07_DeadlineArmed")
+          "C12_PollReleased C11_NoStuckPoll C12_BufferedFirst C08_AtMostOnce C08_FailureKeepsSession C08_ProbeFirst C07_DeadlineArmed")
 
 
 def es_cfg(msgs, climsgs, polls, pings, feats, inv=ES_INV, dev="{}", props=True):
@@ -312,6 +312,7 @@ ES_DEVS = [
     ("UpgTailEager", "C12_BufferedFirst", '{"upgrade","close","window"}'),
     ("UpgradeOnClosed", "C03_SilentAfterClose", '{"upgrade","close","peer","late","closewin"}'),
     ("CheckNoLock", "C03_NoSpuriousError", '{"upgrade","window"}'),
+    ("UpgradeNoProbe", "C08_ProbeFirst", '{"upgrade"}'),
     ("WsCloseCutsSend", "C12_BufferedFirst", '{"upgrade","close","window"}'),
     ("CloseSkipsTaken", "C12_BufferedFirst", '{"close","window"}'),
 ]
